@@ -74,7 +74,8 @@ LEVEL_TEXT = {
             "holds in EVERY world reached by a legal history of property-layer operations - any creation, binding, rebinding, reset, move and destruction order, "
             "arbitrary expressions and user functions, observers that write or reset: no expression leaf of a live binding refers to a property that is gone, "
             "each leaf holds live subscriptions on the changed/moved/destroyed signals of exactly the property it refers to, evaluation never reads a missing "
-            "property, no subscription of a destroyed binding remains in any signal. PARTIAL with respect to memory: lifetimes are modelled (alive flags), the "
+            "property, no subscription of a destroyed binding remains in any signal; ~Property announces destroyed() exactly once per connected observer, in "
+            "connection order, and records nothing else, a moved-from property announces nothing (PropDestroyed.v). PARTIAL with respect to memory: lifetimes are modelled (alive flags), the "
             "real library runs the same destruction orders under ASan/UBSan; destroying an object inside its own notification is outside the model.", '6/C10'),
     'C11': ("Machine-checked (signal layer): a move touches no Impl, the destination holds the source's Impl and the source none, belongsTo follows, move "
             "assignment is disconnectAll of the destination followed by the move, and what the destination held is gone (empty table, dead Impl). "
